@@ -37,11 +37,14 @@ inductive Item where
   | drain
   deriving DecidableEq, Repr, Inhabited
 
-/-- Return values. `sendErr` = `Err(MessagingErr::SendErr(m))` (the message is handed back),
-`invalidType` = `Err(MessagingErr::InvalidActorType)`, `drainErr` = `drain()`'s
+/-- Return values. `sendErr back` = `Err(MessagingErr::SendErr(m))`: the message is handed back,
+`back` is the id of the message `m` inside the error (every rejection path of the code moves the
+caller's own `message` into the `Err`, so the model hands back the frame's own id `f.id`; that it is
+never another id is `C07.rejected_send_hands_back_its_own_message`, and the driver compares the id
+the real code hands back), `invalidType` = `Err(MessagingErr::InvalidActorType)`, `drainErr` = `drain()`'s
 `Err(SendErr(()))` when the marker could not be enqueued. -/
 inductive Res where
-  | ok | sendErr | invalidType | drainErr
+  | ok | sendErr (back : Nat) | invalidType | drainErr
   deriving DecidableEq, Repr, Inhabited
 
 /-- Operations of a thread program. -/
@@ -233,15 +236,15 @@ def stepThread (s : Shared) (stack : List Frame) : Option (Shared × List Frame)
     | .sStatus =>
       -- `if self.get_status() >= Draining { return Err(SendErr(m)) }`
       let f := { f with late := s.word.closed, seenOk := okIds s.rets }
-      if s.status ≥ stDraining then some (finish s f .sendErr rest)
+      if s.status ≥ stDraining then some (finish s f (.sendErr f.id) rest)
       else some (s, { f with pc := .aLoad } :: rest)
     | .aLoad =>
-      if s.word.closed then some (finish s f .sendErr rest)
+      if s.word.closed then some (finish s f (.sendErr f.id) rest)
       else some (s, { f with pc := .aCas s.word } :: rest)
     | .aCas seen =>
       if s.word = seen then
         some ({ s with word := { s.word with count := s.word.count + 1 } }, { f with pc := .box } :: rest)
-      else if s.word.closed then some (finish s f .sendErr rest)
+      else if s.word.closed then some (finish s f (.sendErr f.id) rest)
       else some (s, { f with pc := .aCas s.word } :: rest)
     | .box => some (s, { f with pc := .boxing } :: rest)
     | .boxing =>
@@ -255,7 +258,7 @@ def stepThread (s : Shared) (stack : List Frame) : Option (Shared × List Frame)
       if s.rxOpen then
         some ({ s with queue := s.queue ++ [.msg f.id], enq := s.enq ++ [.msg f.id] },
           { f with pc := .rel .ok } :: rest)
-      else some (s, { f with pc := .rel .sendErr } :: rest)
+      else some (s, { f with pc := .rel (.sendErr f.id) } :: rest)
     | .rel r =>
       -- `let previous = fetch_sub(1); if previous.closed && previous.count == 1 { marker }`
       let s' := { s with word := { s.word with count := s.word.count - 1 } }
@@ -410,6 +413,15 @@ structure Obs where
 def Ret.isSend (r : Ret) : Bool :=
   match r.kind with | .send => true | _ => false
 
+def Res.isSendErr : Res → Bool
+  | .sendErr _ => true
+  | _ => false
+
+/-- a logged return of a send whose `Err(SendErr(m))` carries a message other than the send's own -/
+def Ret.backBad (r : Ret) : Bool :=
+  (match r.kind with | .send => true | _ => false) &&
+    (match r.res with | .sendErr b => b != r.id | _ => false)
+
 def Ret.isOkSend (r : Ret) : Bool :=
   r.isSend && (match r.res with | .ok => true | _ => false)
 
@@ -437,14 +449,17 @@ def Obs.violations (o : Obs) : List String :=
   (if o.rets.all (fun r2 => !r2.isOkSend || r2.seenOk.all (fun m1 => orderedIn m1 r2.id o.handled)) then []
     else ["order"]) ++
   -- C07 (1): nothing admitted after the close
-  (if o.rets.all (fun r => !(r.isSend && r.late) || r.res == .sendErr) then [] else ["admitted-after-close"]) ++
+  (if o.rets.all (fun r => !(r.isSend && r.late) || r.res.isSendErr) then [] else ["admitted-after-close"]) ++
   -- C07 (2)/(5): at quiescence no ticket is outstanding and closed ⇒ marker
   (if o.word.count == 0 then [] else ["count-not-zero"]) ++
   (if !o.word.closed || o.word.marker then [] else ["closed-without-marker"]) ++
   -- C07 (3)/(5): exactly one "Drained" exit after a drain unless stop/kill intervened; never two
   (if o.drainedExits ≤ 1 then [] else ["drained-twice"]) ++
   (if !o.word.closed || o.otherExit || (o.drainedExits == 1 && !o.alive) then [] else ["drain-never-finishes"]) ++
-  (if o.word.closed || o.drainedExits == 0 then [] else ["drained-without-drain"])
+  (if o.word.closed || o.drainedExits == 0 then [] else ["drained-without-drain"]) ++
+  -- C07 (2): a rejected send hands back exactly its own message
+  (if o.rets.all (fun r => !r.backBad) then []
+    else ["handed-back-other-message"])
 
 /-- Round 4. In a cluster build a message enqueued by `send_serialized` is decoded lazily, inside
 `handle_message` on the actor's task; when `Msg::from_boxed` fails (or panics) the message is dropped
